@@ -261,10 +261,17 @@ def r5_who_may_write(ctx: Ctx) -> None:
 
 
 
+def r6_macro_arguments_in_caller_scope(ctx: Ctx) -> None:
+    """a name in a macro argument refers to the call site's innermost definition, not to a parameter of the macro (shared with C09.R1)"""
+    from .c09 import r1_arguments_in_caller_scope
+
+    r1_arguments_in_caller_scope(ctx)
+
+
 def rb_binding_agreement(ctx: Ctx) -> None:
     from ..ownership import binding_agreement
 
     binding_agreement(ctx)
 
 
-RULES = [r1_generator_pairing, r2_replay_agreement, r3_lookup_chain, r4_export, r5_who_may_write, rb_binding_agreement]
+RULES = [r1_generator_pairing, r2_replay_agreement, r3_lookup_chain, r4_export, r5_who_may_write, r6_macro_arguments_in_caller_scope, rb_binding_agreement]
